@@ -45,6 +45,8 @@ def run(ctx):
         in_flight(ctx, crate, crs, tag)
         mech.dedup_guard(ctx, "dedup", crate, crs, ENC + "queue_solvable", "clauses_added_for_solvable", tag)
         mech.dedup_guard(ctx, "dedup", crate, crs, ENC + "queue_package", "clauses_added_for_package", tag)
+        import c13
+        ctx.guard("cache-persists" + tag, c13.cache_is_created_once, ctx, crate, crs, tag)     # "at most once per solver"
         laziness(ctx, crate, crs, tag)
         mech.availability_query(ctx, "laziness", crate, crs, tag)
         mech.hint_writers(ctx, "laziness", crate, tag)
